@@ -110,7 +110,8 @@ theorem renderE_head (e : E) (h : GoodE e) : ∃ c r, renderE e = c :: r ∧ isS
           refine ⟨c, r, by simp [fieldPrefix, valueOf], ?_⟩
           rcases hg.1 with h1 | h1
           · cases h1
-          · rcases escPlain_head h1 with h2 | h2
+          · rcases escPlain_head h1 with h2 | h2 | h2
+            · subst h2; decide
             · subst h2; decide
             · exact isSpace_of_dflt h2
     · have hentry := prefKey_entry f a hft
